@@ -346,7 +346,7 @@ def set_parents(tree):
             ch._parent = n  # type: ignore[attr-defined]
 
 
-def inline_simple_calls(mod: "ModuleInfo", expr: ast.AST, depth: int = 2) -> ast.AST:
+def inline_simple_calls(mod: "ModuleInfo", expr: ast.AST, depth: int = 2, cls: "ClassInfo" = None) -> ast.AST:
     """Copy of `expr` in which every call `h(a1, .., an)` of a module-level function whose body is a single
     `return E` (positional parameters only, no defaults used) is replaced by E[params := arguments].  The arguments
     must be side-effect-free names / attribute reads / subscripts / constants (each parameter may then be duplicated)."""
@@ -359,12 +359,17 @@ def inline_simple_calls(mod: "ModuleInfo", expr: ast.AST, depth: int = 2) -> ast
     class Inl(ast.NodeTransformer):
         def visit_Call(self, node):
             self.generic_visit(node)
+            h, offset = None, 0
             if isinstance(node.func, ast.Name) and not node.keywords and all(simple(a) for a in node.args):
                 h = mod.functions.get(node.func.id)
-                if h is not None and len(h.params()) == len(node.args) and not h.node.args.vararg and not h.node.args.kwarg:
+            elif cls is not None and isinstance(node.func, ast.Attribute) and isinstance(node.func.value, ast.Name) and \
+                    node.func.value.id == "self" and not node.keywords and all(simple(a) for a in node.args):
+                h, offset = cls.find_method(node.func.attr), 1          # self.m(args): a one-line method of the same class
+            if h is not None:
+                if len(h.params()) - offset == len(node.args) and not h.node.args.vararg and not h.node.args.kwarg:
                     body = [s for s in h.node.body if not (isinstance(s, ast.Expr) and isinstance(s.value, ast.Constant))]
                     if len(body) == 1 and isinstance(body[0], ast.Return) and body[0].value is not None:
-                        m = dict(zip(h.params(), node.args))
+                        m = dict(zip(h.params()[offset:], node.args))
 
                         class Sub(ast.NodeTransformer):
                             def visit_Name(self, n):
